@@ -31,7 +31,8 @@ RULE = ('one run = one simulated hand on one of the 11 hand-history variants (si
         'with the same stacks; corrupt_history - one action line is replaced by one that can never apply and iterating '
         'must raise instead of stopping early; unknown_stacks - players who never ran out of chips get the starting '
         'stack `inf` (the format\'s notation for a stack nobody knows) and the history must still round-trip and replay to '
-        'the same actions, payoffs and finite stacks. Operation commentary (words separated by runs of blanks, tabs, #, '
+        'the same actions, payoffs and finite stacks. omitted_steps - folds and free checks that the next listed line makes unambiguous '
+        'are left out of the action list and must be completed to the played hand. Operation commentary (words separated by runs of blanks, tabs, #, '
         'quotes, backslashes) is part of the compared player actions. non-trivial = hand with >= 8 action lines; distinct = distinct '
         '(variant, chip type, compression, fault plan, action-verb sequence) digests')
 ASSUMPTIONS = [
@@ -172,6 +173,64 @@ def several_in_one_file(ch, hh, ctx):
         raise Violation('C16.file', 'saving the histories loaded from one file gives a different text', rule='file_fixpoint')
 
 
+def omitted_steps(ch, st, hh, ctx):
+    """Histories that leave out steps the reader can infer: folds (the player faces a bet and the next listed line is
+    somebody else's) and free checks (where the next listed line is not a wager of the same player) are removed from the
+    action list; iterating must complete them "in the documented way" - a check where checking is free, otherwise a
+    fold - and arrive at the played hand."""
+    import dataclasses
+    acts = list(hh.actions)
+    ops = [op for op in st.operations if type(op).__name__ in ('Folding', 'CheckingOrCalling', 'CompletionBettingOrRaisingTo',
+                                                               'BringInPosting', 'StandingPatOrDiscarding',
+                                                               'HoleCardsShowingOrMucking')]
+    lines = [i for i, a in enumerate(acts) if a.split() and a.split()[0].startswith('p') and len(a.split()) > 1
+             and a.split()[1] in ('f', 'cc', 'cbr', 'pb', 'sd', 'sm')]
+    if len(lines) != len(ops):
+        return                      # compression or completion changed the correspondence: nothing to say
+    # a fold is inferable only where the folder faced a bet (where checking is free the reader completes a check)
+    faced = {}
+    bets = [0] * st.player_count
+    for op in st.operations:
+        t = type(op).__name__
+        if t in ('AntePosting', 'BlindOrStraddlePosting', 'BringInPosting', 'CheckingOrCalling'):
+            bets[op.player_index] += op.amount
+        elif t == 'CompletionBettingOrRaisingTo':
+            bets[op.player_index] = op.amount
+        elif t == 'BetCollection':
+            bets = [0] * st.player_count
+        elif t == 'Folding':
+            faced[id(op)] = max(bets) > bets[op.player_index]
+    drop = set()
+    for i, op in zip(lines, ops):
+        t = type(op).__name__
+        if i == len(acts) - 1:
+            continue
+        if ((t == 'Folding' and faced.get(id(op))) or (t == 'CheckingOrCalling' and not op.amount)) \
+                and ch.chance('omit.line', 1, 3):
+            drop.add(i)
+    if not drop:
+        return
+    # keep an omitted free check only if the next remaining line is not a betting line of the same player
+    for i in sorted(drop):
+        who = acts[i].split()[0]
+        nxt = next((acts[j] for j in range(i + 1, len(acts)) if j not in drop and not acts[j].lstrip().startswith('#')), None)
+        if nxt is None or (acts[i].split()[1] == 'cc' and nxt.split()[0] == who and nxt.split()[1] in ('cc', 'cbr', 'f')):
+            drop.discard(i)
+    if not drop:
+        return
+    h2 = dataclasses.replace(hh, actions=[a for i, a in enumerate(acts) if i not in drop])
+    ctx.fault('omitted_steps', len(drop))
+    end = replay_to_end(roundtrip(h2, 'history with omitted folds/checks')[0], 'history with omitted folds/checks')
+
+    def plain(opslist):
+        return [x[:-1] for x in abstract(opslist)[0]]
+    if end is None or end.status != st.status or list(end.stacks) != list(st.stacks) or list(end.payoffs) != list(st.payoffs) \
+            or plain(end.operations) != plain(st.operations):
+        raise Violation('C16.omitted', f'with the lines {[acts[i] for i in sorted(drop)]} left out, the history is completed '
+                        f'to stacks {end and end.stacks} and actions {end and plain(end.operations)}; the played hand ended '
+                        f'with {st.stacks} after {plain(st.operations)}', rule='omitted', decimal_reloaded_as_int=retyped(st, end))
+
+
 class ZeroTracker(Monitor):
     """Players whose stack was empty at some point of the hand (also mid-cascade)."""
 
@@ -297,6 +356,8 @@ def run(ch, ctx):
             inf_variant(ch, st, hh, zt.zeroed, cfg, ctx)
         if ch.chance('c16.file', 1, 3):
             several_in_one_file(ch, hh, ctx)
+        if dealer != 'hidden' and ch.chance('c16.omit', 1, 2):
+            omitted_steps(ch, st, hh, ctx)
         if cut is not None:
             resume(world, cut, ctx)
         if plan == 2:
